@@ -429,3 +429,400 @@ theorem top_bin2 (op : BinOp) (l r : CE) (hSl : SProp2 l) (hSr : SProp2 r)
     exact Ev_down (by omega) (operand_head2 l op.sides.1 14 (by omega) (by omega) _) hleft (Ev_pow hk hright)
 
 end MV
+
+namespace MV
+
+/-! ### the forms outside the operator fragment -/
+
+theorem contLevel_closer {t : PTok} (h : isCloser t = true) : contLevel t = none := by
+  cases t <;> simp [isCloser] at h <;> rfl
+
+theorem stop_kIf (j : Nat) (hj : 2 < j) (r : List PTok) : Stop j (.kIf :: r) := by
+  intro t ht l hl
+  simp at ht; subst ht; simp [contLevel] at hl; omega
+
+/-- an expression printed bare where a whole `expression` is expected, followed by a token that continues nothing -/
+theorem bare_S2 (x : CE) (hS : SProp2 x) (t : PTok) (r : List PTok) (ht : contLevel t = none) :
+    Ev (fun m => parse m 1 (pr x ++ t :: r)) (embed x, t :: r) :=
+  hS 1 (t :: r) _ (Nat.le_refl _) (full_prec_bounds x).1 (stopAll_of_none t r ht x 1)
+    (Ev_exit (fun t' ht' hc' => by simp at ht'; subst ht'; rw [ht] at hc'; exact absurd hc' (by simp)))
+
+theorem contLevel_le (t : PTok) (l : Nat) (h : contLevel t = some l) : l ≤ 15 := by
+  cases t with
+  | bop o => simp [contLevel] at h; have := level_bounds o; omega
+  | kIf => simp [contLevel] at h; omega
+  | dot => simp [contLevel] at h; omega
+  | lpar => simp [contLevel] at h; omega
+  | lbr => simp [contLevel] at h; omega
+  | _ => simp [contLevel] at h
+
+/-- the printed primary of an expression is parsed back at the primary level, whatever continues it -/
+theorem primary_S2 (f : CE) (hS : SProp2 f) (rest : List PTok) (out : PyAst × List PTok)
+    (hc : Ev (fun m => cont m 15 (embed f) rest) out) :
+    Ev (fun m => parse m 15 (primary f ++ rest)) out := by
+  have hstop : Stop 16 rest := fun t _ l hl => by have := contLevel_le t l hl; omega
+  by_cases hi : ∃ s, f = .int s
+  · obtain ⟨s, rfl⟩ := hi
+    rw [primary_int]
+    have hin := bare_S2 (.int s) hS .rpar rest rfl
+    have hform : parens [PTok.word s] ++ rest = .lpar :: (pr (.int s) ++ .rpar :: rest) := by simp [parens, pr]
+    rw [hform]
+    exact Ev_paren hin hc
+  · have hi' : ∀ s, f ≠ .int s := fun s e => hi ⟨s, e⟩
+    rw [primary_other f hi', precAtom_eq]
+    have hb := full_prec_bounds f
+    exact operand_S2 f hS 15 15 (by omega) (Nat.le_refl _) (Nat.le_refl _) rest out hstop
+      (fun hbare => ⟨fun h6 => by omega, fun h14 => by omega, fun h2 => by omega⟩) hc
+
+/-- comma separated printed expressions up to a closing bracket -/
+theorem items_S2 : (args : List CE) → SAll2 args → ∀ (c : PTok) (rest : List PTok) (acc : List PyAst),
+    isCloser c = true →
+    Ev (fun m => items m (commaSep (prAll args) ++ c :: rest) acc) (acc.reverse ++ embedAll args, c :: rest)
+  | [], _, c, rest, acc, hc => by
+    simpa [commaSep, prAll, embedAll] using Ev_items_close (ts := rest) (acc := acc) hc
+  | [a], hS, c, rest, acc, hc => by
+    have h1 := bare_S2 a hS.1 c rest (contLevel_closer hc)
+    have := Ev_items_last (acc := acc) (pr_headOpen a _) h1 hc
+    simpa [commaSep, prAll, embedAll] using this
+  | a :: b :: more, hS, c, rest, acc, hc => by
+    have h1 := bare_S2 a hS.1 .comma (commaSep (prAll (b :: more)) ++ c :: rest) rfl
+    have ih := items_S2 (b :: more) hS.2 c rest (embed a :: acc) hc
+    have := Ev_items_comma (acc := acc) (pr_headOpen a _) h1 ih
+    have hform : commaSep (prAll (a :: b :: more)) ++ c :: rest =
+        pr a ++ .comma :: (commaSep (prAll (b :: more)) ++ c :: rest) := by
+      simp [commaSep, prAll]
+    rw [hform]
+    simpa [embedAll] using this
+
+theorem top_enum (n e : String) (rest : List PTok) (out : PyAst × List PTok)
+    (hc : Ev (fun m => cont m 15 (embed (.enum n e)) rest) out) :
+    Ev (fun m => parse m 15 (pr (.enum n e) ++ rest)) out := by
+  let x : CE := .bin .Mul (.atom n) (.bin .Pow (.atom "10") (.atom e))
+  have hx : frag x = true := by simp [x, frag]
+  have hpr : pr x = [.word n, .bop .Mul, .word "10", .bop .Pow, .word e] := by
+    have a1 : ¬ (15 < BinOp.Mul.sides.fst) := by decide
+    have a2 : ¬ (BinOp.Pow.prec < BinOp.Mul.sides.snd) := by decide
+    have a3 : ¬ (15 < BinOp.Pow.sides.fst) := by decide
+    have a4 : ¬ (15 < BinOp.Pow.sides.snd) := by decide
+    simp [x, pr_bin, pr_atom, operand_unfold, CE.prec, precAtom_eq, a1, a2, a3, a4]
+  have hemb : embed x = embed (.enum n e) := by simp [x, embed]
+  have hin : Ev (fun m => parse m 1 (pr x ++ .rpar :: rest)) (embed x, .rpar :: rest) :=
+    S_all x hx 1 (.rpar :: rest) _ (by have := frag_prec_bounds x hx; omega)
+      ⟨stop_rpar _ _, ⟨fun _ => stop_rpar _ _, fun _ => stop_rpar _ _⟩⟩
+      (Ev_exit (fun t ht hc' => by simp at ht; subst ht; simp [contLevel] at hc'))
+  have hform : pr (.enum n e) ++ rest = .lpar :: (pr x ++ .rpar :: rest) := by rw [pr_enum, hpr]; simp
+  rw [hform]
+  rw [← hemb] at hc
+  exact Ev_paren hin hc
+
+end MV
+
+namespace MV
+
+theorem exit_none {t : PTok} (ht : contLevel t = none) (k : Nat) (acc : PyAst) (r : List PTok) :
+    Ev (fun m => cont m k acc (t :: r)) (acc, t :: r) :=
+  Ev_exit (fun t' ht' hc' => by simp at ht'; subst ht'; rw [ht] at hc'; exact absurd hc' (by simp))
+
+theorem top_ternary (c t e : CE) (hSc : SProp2 c) (hSt : SProp2 t) (hSe : SProp2 e)
+    (rest : List PTok) (out : PyAst × List PTok) (hst : StopAt2 (CE.ternary c t e).prec (.ternary c t e) rest)
+    (hc : Ev (fun m => cont m (CE.ternary c t e).prec (embed (.ternary c t e)) rest) out) :
+    Ev (fun m => parse m (CE.ternary c t e).prec (pr (.ternary c t e) ++ rest)) out := by
+  simp only [CE.prec, precTernary_eq] at hst hc ⊢
+  obtain ⟨_, _, _, h2⟩ := hst
+  have hstop2 : Stop 2 rest := h2 (by simp [CE.prec, precTernary_eq])
+  have hemb : embed (.ternary c t e) = .ifExp (embed c) (embed t) (embed e) := by simp [embed]
+  rw [hemb] at hc
+  have hform : pr (.ternary c t e) ++ rest =
+      operand t 3 ++ (.kIf :: (operand c 3 ++ (.kElse :: (operand e 1 ++ rest)))) := by
+    rw [pr_ternary]; simp
+  rw [hform]
+  have hbt := full_prec_bounds t
+  have hbc := full_prec_bounds c
+  have h3 : Ev (fun m => parse m 3 (operand t 3 ++ (.kIf :: (operand c 3 ++ (.kElse :: (operand e 1 ++ rest))))))
+      (embed t, .kIf :: (operand c 3 ++ (.kElse :: (operand e 1 ++ rest)))) :=
+    operand_S2 t hSt 3 3 (by omega) (Nat.le_refl _) (by omega) _ _ (stop_kIf 4 (by omega) _)
+      (fun hb => ⟨fun _ => stop_kIf 6 (by omega) _, fun _ => stop_kIf 14 (by omega) _, fun h => by omega⟩)
+      (Ev_exit (fun t' ht' hc' => by simp at ht'; subst ht'; simp [contLevel] at hc'))
+  have hcond : Ev (fun m => parse m 3 (operand c 3 ++ (.kElse :: (operand e 1 ++ rest))))
+      (embed c, .kElse :: (operand e 1 ++ rest)) :=
+    operand_S2 c hSc 3 3 (by omega) (Nat.le_refl _) (by omega) _ _ (stop_of_none .kElse _ _ rfl)
+      (fun _ => nonAssoc2_of_stop2 c _ (stop_of_none .kElse _ _ rfl)) (exit_none rfl 3 _ _)
+  have helse : Ev (fun m => parse m 1 (operand e 1 ++ rest)) (embed e, rest) :=
+    operand_S2 e hSe 1 1 (Nat.le_refl _) (Nat.le_refl _) (by omega) rest _ hstop2
+      (fun _ => nonAssoc2_of_stop2 e rest hstop2) (Ev_exit (fun t' _ => contLevel_ne t' 1 (by omega)))
+  have hout : out = (.ifExp (embed c) (embed t) (embed e), rest) := Ev.unique hc (Ev_exit_of_stop hstop2)
+  rw [hout]
+  exact Ev_down (by omega) (operand_head2 t 3 2 (by omega) (by omega) _) h3 (Ev_if hcond helse)
+
+theorem prAll_atoms : (args : List CE) → args.all isAtomCE = true →
+    prAll args = args.map (fun a => [PTok.word (atomName a)])
+  | [], _ => by simp [prAll]
+  | a :: as, h => by
+    simp only [List.all_cons, Bool.and_eq_true] at h
+    obtain ⟨ha, has⟩ := h
+    cases a <;> simp [isAtomCE] at ha
+    rename_i s
+    simp [prAll, pr_atom, atomName, prAll_atoms as has]
+
+theorem lambdaArgs_words : (names : List String) → names ≠ [] → ∀ (acc : List String) (r : List PTok),
+    lambdaArgs (commaSep (names.map (fun s => [PTok.word s])) ++ .colon :: r) acc = some (acc.reverse ++ names, r)
+  | [], h, _, _ => absurd rfl h
+  | [s], _, acc, r => by simp [commaSep, lambdaArgs]
+  | s :: s2 :: more, _, acc, r => by
+    have ih := lambdaArgs_words (s2 :: more) (by simp) (s :: acc) r
+    simp only [List.map_cons, commaSep, List.cons_append, List.nil_append] at ih ⊢
+    simp only [lambdaArgs]
+    rw [ih]; simp
+
+theorem top_lambda (args : List CE) (body : CE) (hargs : args.all isAtomCE = true) (hSb : SProp2 body)
+    (rest : List PTok) (out : PyAst × List PTok) (hst : StopAt2 (CE.lambda args body).prec (.lambda args body) rest)
+    (hc : Ev (fun m => cont m (CE.lambda args body).prec (embed (.lambda args body)) rest) out) :
+    Ev (fun m => parse m (CE.lambda args body).prec (pr (.lambda args body) ++ rest)) out := by
+  simp only [CE.prec, precLambda_eq] at hst hc ⊢
+  obtain ⟨_, _, _, h2⟩ := hst
+  have hstop2 : Stop 2 rest := h2 (by simp [CE.prec, precLambda_eq])
+  have hemb : embed (.lambda args body) = .lambda (args.map atomName) (embed body) := by simp [embed]
+  rw [hemb] at hc
+  have hbody : Ev (fun m => parse m 1 (pr body ++ rest)) (embed body, rest) :=
+    hSb 1 rest _ (Nat.le_refl _) (full_prec_bounds body).1 ⟨hstop2, nonAssoc2_of_stop2 body rest hstop2⟩
+      (Ev_exit (fun t' _ => contLevel_ne t' 1 (by omega)))
+  have hout : out = (.lambda (args.map atomName) (embed body), rest) :=
+    Ev.unique hc (Ev_exit (fun t' _ => contLevel_ne t' 1 (by omega)))
+  rw [hout, pr_lambda]
+  by_cases hempty : args = []
+  · subst hempty
+    refine Ev_lambda (ts := [PTok.kLambda] ++ (if ([] : List CE).isEmpty then [] else [PTok.space] ++ commaSep (prAll [])) ++ [PTok.colon] ++ pr body ++ rest)
+      (r' := pr body ++ rest) (by simp [headIsLambda]) ?_ hbody
+    simp [dropSpace, lambdaArgs]
+  · have hne : (args.isEmpty) = false := by cases args <;> simp at hempty ⊢
+    refine Ev_lambda (r' := pr body ++ rest) (by simp [headIsLambda]) ?_ hbody
+    rw [hne, prAll_atoms args hargs]
+    have hnames : args.map atomName ≠ [] := by cases args <;> simp at hempty ⊢
+    have := lambdaArgs_words (args.map atomName) hnames [] (pr body ++ rest)
+    simp only [List.map_map] at this
+    simpa [dropSpace, Function.comp_def] using this
+
+theorem top_call (f : CE) (args : List CE) (hSf : SProp2 f) (hSa : SAll2 args)
+    (rest : List PTok) (out : PyAst × List PTok)
+    (hc : Ev (fun m => cont m 15 (embed (.call f args)) rest) out) :
+    Ev (fun m => parse m 15 (pr (.call f args) ++ rest)) out := by
+  have hemb : embed (.call f args) = .call (embed f) (embedAll args) := by simp [embed]
+  rw [hemb] at hc
+  have hform : pr (.call f args) ++ rest = primary f ++ (.lpar :: (commaSep (prAll args) ++ .rpar :: rest)) := by
+    rw [pr_call]; simp
+  rw [hform]
+  have hitems := items_S2 args hSa .rpar rest [] rfl
+  simp only [List.reverse_nil, List.nil_append] at hitems
+  exact primary_S2 f hSf _ out (Ev_call hitems hc)
+
+theorem top_index (i r : CE) (hSi : SProp2 i) (hSr : SProp2 r)
+    (rest : List PTok) (out : PyAst × List PTok)
+    (hc : Ev (fun m => cont m 15 (embed (.index i r)) rest) out) :
+    Ev (fun m => parse m 15 (pr (.index i r) ++ rest)) out := by
+  have hemb : embed (.index i r) = .subscript (embed i) (embed r) := by simp [embed]
+  rw [hemb] at hc
+  have hform : pr (.index i r) ++ rest = primary i ++ (.lbr :: (pr r ++ .rbr :: rest)) := by
+    rw [pr_index]; simp
+  rw [hform]
+  exact primary_S2 i hSi _ out (Ev_index (bare_S2 r hSr .rbr rest rfl) hc)
+
+theorem top_attr_name (o : CE) (s : String) (hSo : SProp2 o)
+    (rest : List PTok) (out : PyAst × List PTok)
+    (hc : Ev (fun m => cont m 15 (embed (.attr o (.atom s))) rest) out) :
+    Ev (fun m => parse m 15 (pr (.attr o (.atom s)) ++ rest)) out := by
+  have hemb : embed (.attr o (.atom s)) = .attr (embed o) s := by simp [embed]
+  rw [hemb] at hc
+  have hform : pr (.attr o (.atom s)) ++ rest = primary o ++ (.dot :: .word s :: rest) := by
+    rw [pr_attr, pr_atom]; simp
+  rw [hform]
+  exact primary_S2 o hSo _ out (Ev_dot hc)
+
+theorem top_attr_call (o : CE) (s : String) (args : List CE) (hSo : SProp2 o) (hSa : SAll2 args)
+    (rest : List PTok) (out : PyAst × List PTok)
+    (hc : Ev (fun m => cont m 15 (embed (.attr o (.call (.atom s) args))) rest) out) :
+    Ev (fun m => parse m 15 (pr (.attr o (.call (.atom s) args)) ++ rest)) out := by
+  have hemb : embed (.attr o (.call (.atom s) args)) = .call (.attr (embed o) s) (embedAll args) := by simp [embed]
+  rw [hemb] at hc
+  have hprim : primary (.atom s) = [.word s] := by
+    rw [primary_other _ (fun _ h => by cases h), operand_unfold]
+    simp [CE.prec, pr_atom]
+  have hform : pr (.attr o (.call (.atom s) args)) ++ rest =
+      primary o ++ (.dot :: .word s :: .lpar :: (commaSep (prAll args) ++ .rpar :: rest)) := by
+    rw [pr_attr, pr_call, hprim]; simp
+  rw [hform]
+  have hitems := items_S2 args hSa .rpar rest [] rfl
+  simp only [List.reverse_nil, List.nil_append] at hitems
+  exact primary_S2 o hSo _ out (Ev_dot (Ev_call hitems hc))
+
+theorem top_isA (l r : CE) (hSl : SProp2 l) (hSr : SProp2 r)
+    (rest : List PTok) (out : PyAst × List PTok)
+    (hc : Ev (fun m => cont m 15 (embed (.isA l r)) rest) out) :
+    Ev (fun m => parse m 15 (pr (.isA l r) ++ rest)) out := by
+  have hemb : embed (.isA l r) = .call (.name "isinstance") [embed l, embed r] := by simp [embed]
+  rw [hemb] at hc
+  have hform : pr (.isA l r) ++ rest =
+      .word "isinstance" :: .lpar :: (pr l ++ .commaTight :: (pr r ++ .rpar :: rest)) := by
+    rw [pr_isA]; simp
+  rw [hform]
+  have hlast := Ev_items_last (acc := [embed l]) (pr_headOpen r _) (bare_S2 r hSr .rpar rest rfl) (t := .rpar) rfl
+  have hitems := Ev_items_commaTight (acc := []) (pr_headOpen l _) (bare_S2 l hSl .commaTight _ rfl) hlast
+  simp only [List.reverse_cons, List.reverse_nil, List.nil_append, List.cons_append] at hitems
+  exact Ev_word (Ev_call hitems hc)
+
+theorem top_sqrt (e : CE) (hSe : SProp2 e)
+    (rest : List PTok) (out : PyAst × List PTok)
+    (hc : Ev (fun m => cont m 15 (embed (.sqrt e)) rest) out) :
+    Ev (fun m => parse m 15 (pr (.sqrt e) ++ rest)) out := by
+  have hemb : embed (.sqrt e) = .call (.attr (.name "math") "sqrt") [embed e] := by simp [embed]
+  rw [hemb] at hc
+  have hform : pr (.sqrt e) ++ rest = .word "math" :: .dot :: .word "sqrt" :: .lpar :: (pr e ++ .rpar :: rest) := by
+    rw [pr_sqrt]; simp
+  rw [hform]
+  have hitems := Ev_items_last (acc := []) (pr_headOpen e _) (bare_S2 e hSe .rpar rest rfl) (t := .rpar) rfl
+  simp only [List.reverse_cons, List.reverse_nil, List.nil_append] at hitems
+  exact Ev_word (Ev_dot (Ev_call hitems hc))
+
+theorem top_list (es : List CE) (hS : SAll2 es) (rest : List PTok) (out : PyAst × List PTok)
+    (hc : Ev (fun m => cont m 15 (embed (.list es)) rest) out) :
+    Ev (fun m => parse m 15 (pr (.list es) ++ rest)) out := by
+  have hemb : embed (.list es) = .list (embedAll es) := by simp [embed]
+  rw [hemb] at hc
+  have hform : pr (.list es) ++ rest = .lbr :: (commaSep (prAll es) ++ .rbr :: rest) := by rw [pr_list]; simp
+  rw [hform]
+  have hitems := items_S2 es hS .rbr rest [] rfl
+  simp only [List.reverse_nil, List.nil_append] at hitems
+  exact Ev_list hitems hc
+
+theorem top_set (es : List CE) (hS : SAll2 es) (rest : List PTok) (out : PyAst × List PTok)
+    (hc : Ev (fun m => cont m 15 (embed (.set es)) rest) out) :
+    Ev (fun m => parse m 15 (pr (.set es) ++ rest)) out := by
+  have hemb : embed (.set es) = .set (embedAll es) := by simp [embed]
+  rw [hemb] at hc
+  have hform : pr (.set es) ++ rest = .lcur :: (commaSep (prAll es) ++ .rcur :: rest) := by rw [pr_set]; simp
+  rw [hform]
+  have hitems := items_S2 es hS .rcur rest [] rfl
+  simp only [List.reverse_nil, List.nil_append] at hitems
+  exact Ev_set hitems hc
+
+theorem top_tuple (a b : CE) (more : List CE) (hS : SAll2 (a :: b :: more)) (rest : List PTok)
+    (out : PyAst × List PTok) (hc : Ev (fun m => cont m 15 (embed (.tuple (a :: b :: more))) rest) out) :
+    Ev (fun m => parse m 15 (pr (.tuple (a :: b :: more)) ++ rest)) out := by
+  have hemb : embed (.tuple (a :: b :: more)) = .tuple (embed a :: embedAll (b :: more)) := by simp [embed, embedAll]
+  rw [hemb] at hc
+  have hform : pr (.tuple (a :: b :: more)) ++ rest =
+      .lpar :: (pr a ++ .comma :: (commaSep (prAll (b :: more)) ++ .rpar :: rest)) := by
+    rw [pr_tuple]; simp [commaSep, prAll]
+  rw [hform]
+  have h1 := bare_S2 a hS.1 .comma (commaSep (prAll (b :: more)) ++ .rpar :: rest) rfl
+  have h2 := items_S2 (b :: more) hS.2 .rpar rest [embed a] rfl
+  simp only [List.reverse_cons, List.reverse_nil, List.nil_append, List.cons_append] at h2
+  exact Ev_tuple h1 h2 hc
+
+end MV
+
+namespace MV
+
+theorem full_attr (o p : CE) (h : full (.attr o p) = true) :
+    full o = true ∧ ((∃ s, p = .atom s) ∨ (∃ s args, p = .call (.atom s) args ∧ fullAll args = true)) := by
+  unfold full at h
+  simp only [Bool.and_eq_true] at h
+  refine ⟨h.1, ?_⟩
+  have h2 := h.2
+  split at h2
+  · exact Or.inl ⟨_, rfl⟩
+  · exact Or.inr ⟨_, _, rfl, h2⟩
+  · exact absurd h2 (by simp)
+
+mutual
+/-- every expression of the language is parsed back from its printed tokens -/
+theorem S_all2 : (e : CE) → full e = true → SProp2 e
+  | .atom s, _ => S_atom s
+  | .int s, _ => S_int s
+  | .enum n e, _ => lift_top2 _ (fun rest out _ hc => by
+      simp only [CE.prec, precAtom_eq] at hc ⊢; exact top_enum n e rest out hc)
+  | .un u x, h => lift_top2 _ (top_un2 u x (S_all2 x (by simpa [full] using h)))
+  | .bin op l r, h =>
+    have h' : full l = true ∧ full r = true := by simpa [full] using h
+    lift_top2 _ (top_bin2 op l r (S_all2 l h'.1) (S_all2 r h'.2))
+  | .ternary c t e, h =>
+    have h' : (full c = true ∧ full t = true) ∧ full e = true := by simpa [full] using h
+    lift_top2 _ (top_ternary c t e (S_all2 c h'.1.1) (S_all2 t h'.1.2) (S_all2 e h'.2))
+  | .lambda args body, h =>
+    have h' : args.all isAtomCE = true ∧ full body = true := by
+      unfold full at h; simpa [Bool.and_eq_true] using h
+    lift_top2 _ (top_lambda args body h'.1 (S_all2 body h'.2))
+  | .call f args, h =>
+    have h' : full f = true ∧ fullAll args = true := by simpa [full] using h
+    lift_top2 _ (fun rest out _ hc => by
+      simp only [CE.prec, precAtom_eq] at hc ⊢
+      exact top_call f args (S_all2 f h'.1) (S_list args h'.2) rest out hc)
+  | .attr o (.atom s), h =>
+    have ho : full o = true := (full_attr _ _ h).1
+    lift_top2 _ (fun rest out _ hc => by
+      simp only [CE.prec, precAtom_eq] at hc ⊢
+      exact top_attr_name o s (S_all2 o ho) rest out hc)
+  | .attr o (.call (.atom s) args), h =>
+    have ho : full o = true := (full_attr _ _ h).1
+    have ha : fullAll args = true := by
+      rcases (full_attr _ _ h).2 with ⟨s', e⟩ | ⟨s', args', e, ha⟩
+      · cases e
+      · cases e; exact ha
+    lift_top2 _ (fun rest out _ hc => by
+      simp only [CE.prec, precAtom_eq] at hc ⊢
+      exact top_attr_call o s args (S_all2 o ho) (S_list args ha) rest out hc)
+  | .attr o p, h => by
+    rcases (full_attr _ _ h).2 with ⟨s', e⟩ | ⟨s', args', e, _⟩
+    · subst e
+      have ho : full o = true := (full_attr _ _ h).1
+      exact lift_top2 _ (fun rest out _ hc => by
+        simp only [CE.prec, precAtom_eq] at hc ⊢
+        exact top_attr_name o s' (S_all2 o ho) rest out hc)
+    · subst e
+      have ho : full o = true := (full_attr _ _ h).1
+      have ha : fullAll args' = true := by
+        rcases (full_attr _ _ h).2 with ⟨s2, e2⟩ | ⟨s2, a2, e2, ha⟩
+        · cases e2
+        · cases e2; exact ha
+      exact lift_top2 _ (fun rest out _ hc => by
+        simp only [CE.prec, precAtom_eq] at hc ⊢
+        exact top_attr_call o s' args' (S_all2 o ho) (S_list args' ha) rest out hc)
+  | .index i r, h =>
+    have h' : full i = true ∧ full r = true := by simpa [full] using h
+    lift_top2 _ (fun rest out _ hc => by
+      simp only [CE.prec, precAtom_eq] at hc ⊢
+      exact top_index i r (S_all2 i h'.1) (S_all2 r h'.2) rest out hc)
+  | .isA l r, h =>
+    have h' : full l = true ∧ full r = true := by simpa [full] using h
+    lift_top2 _ (fun rest out _ hc => by
+      simp only [CE.prec, precAtom_eq] at hc ⊢
+      exact top_isA l r (S_all2 l h'.1) (S_all2 r h'.2) rest out hc)
+  | .sqrt e, h =>
+    lift_top2 _ (fun rest out _ hc => by
+      simp only [CE.prec, precAtom_eq] at hc ⊢
+      exact top_sqrt e (S_all2 e (by simpa [full] using h)) rest out hc)
+  | .tuple [], h => by simp [full] at h
+  | .tuple [_], h => by simp [full] at h
+  | .tuple (a :: b :: more), h =>
+    have h' : fullAll (a :: b :: more) = true := by
+      unfold full at h; simp only [Bool.and_eq_true] at h; exact h.2
+    lift_top2 _ (fun rest out _ hc => by
+      simp only [CE.prec, precAtom_eq] at hc ⊢
+      exact top_tuple a b more (S_list (a :: b :: more) h') rest out hc)
+  | .list es, h =>
+    lift_top2 _ (fun rest out _ hc => by
+      simp only [CE.prec, precAtom_eq] at hc ⊢
+      exact top_list es (S_list es (by simpa [full] using h)) rest out hc)
+  | .set es, h =>
+    have h' : fullAll es = true := by
+      unfold full at h; simp only [Bool.and_eq_true] at h; exact h.2
+    lift_top2 _ (fun rest out _ hc => by
+      simp only [CE.prec, precAtom_eq] at hc ⊢
+      exact top_set es (S_list es h') rest out hc)
+theorem S_list : (es : List CE) → fullAll es = true → SAll2 es
+  | [], _ => trivial
+  | e :: es, h =>
+    have h' : full e = true ∧ fullAll es = true := by simpa [fullAll] using h
+    ⟨S_all2 e h'.1, S_list es h'.2⟩
+end
+
+end MV
